@@ -8,6 +8,7 @@ package io
 
 //@ func JsonSafeArray(vals, shiftDim) returns (result)
 //@   locals shape, length, ndims, from, to, step, i, result, i, v
+//@   loopsigs 3fe3d512 276bda39
 //@   ndmodel locations
 //@   views unchecked
 //@   safety C17
